@@ -30,18 +30,24 @@ namespace nsrv {
     enum { k_notify = 1, k_indicate = 2, k_both = 3 };
 
     // mixed kinds: characteristic I is notify-only, indicate-only, both, notify-only ...
-    struct mixed_kinds { static constexpr int of( int i ) { return i % 3 == 0 ? k_notify : i % 3 == 1 ? k_indicate : k_both; } };
-    struct all_both    { static constexpr int of( int )   { return k_both; } };
+    // uuid_of( i ): characteristic i carries the UUID cuuid< uuid_of( i ) > ( == i unless a configuration duplicates a UUID )
+    struct mixed_kinds { static constexpr int of( int i ) { return i % 3 == 0 ? k_notify : i % 3 == 1 ? k_indicate : k_both; }
+                         static constexpr int uuid_of( int i ) { return i; } };
+    struct all_both    { static constexpr int of( int )   { return k_both; }
+                         static constexpr int uuid_of( int i ) { return i; } };
+    // characteristic 2 ( notify + indicate ) has the UUID of characteristic 0 ( notify only )
+    struct dup_kinds   { static constexpr int of( int i ) { return i % 3 == 0 ? k_notify : i % 3 == 1 ? k_indicate : k_both; }
+                         static constexpr int uuid_of( int i ) { return i == 2 ? 0 : i; } };
 
-    template < int I, int Kind > struct mk_char;
-    template < int I > struct mk_char< I, k_notify >
-    { using type = bluetoe::characteristic< cuuid< I >, bluetoe::bind_characteristic_value< std::uint8_t, &val< I > >, bluetoe::notify >; };
-    template < int I > struct mk_char< I, k_indicate >
-    { using type = bluetoe::characteristic< cuuid< I >, bluetoe::bind_characteristic_value< std::uint8_t, &val< I > >, bluetoe::indicate >; };
-    template < int I > struct mk_char< I, k_both >
-    { using type = bluetoe::characteristic< cuuid< I >, bluetoe::bind_characteristic_value< std::uint8_t, &val< I > >, bluetoe::notify, bluetoe::indicate >; };
+    template < int I, int Kind, int U > struct mk_char;
+    template < int I, int U > struct mk_char< I, k_notify, U >
+    { using type = bluetoe::characteristic< cuuid< U >, bluetoe::bind_characteristic_value< std::uint8_t, &val< I > >, bluetoe::notify >; };
+    template < int I, int U > struct mk_char< I, k_indicate, U >
+    { using type = bluetoe::characteristic< cuuid< U >, bluetoe::bind_characteristic_value< std::uint8_t, &val< I > >, bluetoe::indicate >; };
+    template < int I, int U > struct mk_char< I, k_both, U >
+    { using type = bluetoe::characteristic< cuuid< U >, bluetoe::bind_characteristic_value< std::uint8_t, &val< I > >, bluetoe::notify, bluetoe::indicate >; };
 
-    template < class Kinds, int I > using char_t = typename mk_char< I, Kinds::of( I ) >::type;
+    template < class Kinds, int I > using char_t = typename mk_char< I, Kinds::of( I ), Kinds::uuid_of( I ) >::type;
 
     // service S with the characteristics First .. First+Count-1 and additional service options ( priorities )
     template < class Kinds, int S, int First, class Seq, class... Opts > struct mk_service;
@@ -54,19 +60,37 @@ namespace nsrv {
 
     template < class... U > using hop = bluetoe::higher_outgoing_priority< U... >;
 
-    // reference layout: number of characteristics per service, in declaration order
-    template < int... Counts >
-    struct layout
+    // reference layout: per service, in declaration order, the number of notify / indicate characteristics and the number
+    // of include declarations.  GATT: handles are consecutive from 1; a service costs its declaration plus one attribute
+    // per include, every one of our characteristics three ( declaration, value, CCCD ).  Services without such
+    // characteristics ( targets of includes ) are declared behind all others, so they do not move any handle.
+    template < int Chars, int Includes > struct sv {};
+
+    template < class... S > struct layout_s;
+    template < int... Counts, int... Inc >
+    struct layout_s< sv< Counts, Inc >... >
     {
         static constexpr int nsvc = sizeof...( Counts );
         static constexpr int n    = ( 0 + ... + Counts );
         static int service_of( int k ) { const int c[] = { Counts... }; int s = 0; while ( k >= c[ s ] ) { k -= c[ s ]; ++s; } return s; }
-        // GATT: handles are consecutive from 1; every service costs one attribute, every characteristic three
-        static std::uint16_t decl_handle( int k )  { return std::uint16_t( 1 + ( service_of( k ) + 1 ) + 3 * k ); }
+        static int service_attributes_upto( int s ) { const int inc[] = { Inc... }; int a = 0; for ( int i = 0; i <= s; ++i ) a += 1 + inc[ i ]; return a; }
+        static std::uint16_t decl_handle( int k )  { return std::uint16_t( 1 + service_attributes_upto( service_of( k ) ) + 3 * k ); }
         static std::uint16_t value_handle( int k ) { return std::uint16_t( decl_handle( k ) + 1 ); }
         static std::uint16_t cccd_handle( int k )  { return std::uint16_t( decl_handle( k ) + 2 ); }
         static int by_value_handle( std::uint16_t h ) { for ( int k = 0; k != n; ++k ) if ( value_handle( k ) == h ) return k; return -1; }
+        // what else a handle is ( for signatures )
+        static const char* classify( std::uint16_t h )
+        {
+            for ( int k = 0; k != n; ++k )
+            {
+                if ( h == value_handle( k ) ) return "characteristic-value";
+                if ( h == decl_handle( k ) )  return "characteristic-declaration";
+                if ( h == cccd_handle( k ) )  return "cccd";
+            }
+            return h != 0 && h < decl_handle( n - 1 ) ? "service-or-include-declaration" : "other";
+        }
     };
+    template < int... Counts > using layout = layout_s< sv< Counts, 0 >... >;
 
     // a configuration: the server type (without harness specific options), its reference layout, kinds, and a name
     template < class Server, class Layout, class Kinds, bool Prio >
@@ -114,6 +138,30 @@ namespace nsrv {
     template < class K, class... X > using n9_p2 = config< bluetoe::server<
             service_t< K, 0, 0, 3, hop< cuuid< 1 > > >, service_t< K, 1, 3, 3 >, service_t< K, 2, 6, 3, hop< cuuid< 8 >, cuuid< 7 > > >,
             hop< suuid< 2 >, suuid< 1 > >, nogap, X... >, layout< 3, 3, 3 >, K, true >;
+
+    // ---- services with include declarations -----------------------------------------------------------------------------
+    // targets of the includes: plain services with one read only characteristic, declared behind everything else
+    template < int S > inline const std::uint8_t plain_val = std::uint8_t( 0xE0 + S );
+    template < int S > using plain_service = bluetoe::service< suuid< S >,
+        bluetoe::characteristic< bluetoe::characteristic_uuid16< 0xEE00 + S >, bluetoe::bind_characteristic_value< const std::uint8_t, &plain_val< S > > > >;
+    template < int S > using inc = bluetoe::include_service< suuid< S > >;
+
+    // one include declaration in the service in front and in the notifying service
+    template < class K, class... X > using n3_i1 = config< bluetoe::server<
+            service_t< K, 0, 0, 1, inc< 9 > >, service_t< K, 1, 1, 2, inc< 9 > >, plain_service< 9 >, nogap, X... >, layout_s< sv< 1, 1 >, sv< 2, 1 > >, K, false >;
+    // two include declarations each, plus priorities
+    template < class K, class... X > using n3_i2p = config< bluetoe::server<
+            service_t< K, 0, 0, 1, inc< 8 >, inc< 9 > >, service_t< K, 1, 1, 2, inc< 9 >, inc< 8 >, hop< cuuid< 2 > > >, plain_service< 8 >, plain_service< 9 >,
+            hop< suuid< 1 > >, nogap, X... >, layout_s< sv< 1, 2 >, sv< 2, 2 > >, K, true >;
+    // includes only in the notifying ( second ) service, 4 characteristics
+    template < class K, class... X > using n4_i12 = config< bluetoe::server<
+            service_t< K, 0, 0, 2, inc< 9 > >, service_t< K, 1, 2, 2, inc< 8 >, inc< 9 >, hop< cuuid< 3 > > >, plain_service< 8 >, plain_service< 9 >, nogap, X... >,
+            layout_s< sv< 2, 1 >, sv< 2, 2 > >, K, true >;
+
+    // ---- a duplicated characteristic UUID: characteristic 2 ( second service, raised priority ) has the UUID of characteristic 0.
+    // server::notify< UUID >() documents: "If multiple characteristics exists with the given UUID, the first characteristic will be notified."
+    template < class K, class... X > using n3_dup = config< bluetoe::server<
+            service_t< dup_kinds, 0, 0, 2 >, service_t< dup_kinds, 1, 2, 1 >, hop< suuid< 1 > >, nogap, X... >, layout< 2, 1 >, dup_kinds, true >;
 
     // ---- compile time "for k in 0..N-1" helpers -------------------------------------------------------------------------
     // calls f.template operator()< I >() for I == k
